@@ -157,6 +157,9 @@ type Harness struct {
 	Budget func(tier string) time.Duration
 	// Workers overrides the number of shards (0 = all cores).
 	Workers func(tier string) int
+	// PostProcess runs in the parent after the shards' reports have been merged (e.g. to parse
+	// race detector logs written by the workers into workDir).
+	PostProcess func(rep *Report, workDir string)
 	// ProcsPerWorker is GOMAXPROCS of each worker subprocess (default 1).
 	ProcsPerWorker int
 	// SingleProcess runs shards in-process (harness is goroutine-safe); otherwise subprocesses.
@@ -255,10 +258,10 @@ func runShard(h *Harness, tier string, i, n int, seed int64, outPath string) *Re
 	// limitation, never a verdict: the shard writes what it has and stops.
 	if outPath != "" {
 		go func() {
-			last, still := explore.Heartbeat.Load(), 0
+			last, still := explore.Heartbeat, 0
 			for {
 				time.Sleep(5 * time.Second)
-				cur := explore.Heartbeat.Load()
+				cur := explore.Heartbeat
 				if cur != last || cur == 0 {
 					last, still = cur, 0
 					continue
@@ -366,6 +369,11 @@ func parent(h *Harness, tier string, seed int64) int {
 		}
 	}
 	self, _ := os.Executable()
+	if old, _ := filepath.Glob(filepath.Join(work, os.Getenv("VERIF_PART"), "race.*")); len(old) > 0 {
+		for _, f := range old {
+			os.Remove(f)
+		}
+	}
 	reps := make([]*Report, n)
 	var wg sync.WaitGroup
 	crashed := make([]string, n)
@@ -380,7 +388,8 @@ func parent(h *Harness, tier string, seed int64) int {
 			if h.ProcsPerWorker > 0 {
 				procs = h.ProcsPerWorker
 			}
-			cmd.Env = append(os.Environ(), "VERIF_SEED="+strconv.FormatInt(seed, 10), "GOMAXPROCS="+strconv.Itoa(procs))
+			cmd.Env = append(os.Environ(), "VERIF_SEED="+strconv.FormatInt(seed, 10), "GOMAXPROCS="+strconv.Itoa(procs),
+				"GORACE=halt_on_error=0 exitcode=0 log_path="+filepath.Join(work, os.Getenv("VERIF_PART"), fmt.Sprintf("race.%d", i)))
 			logf, _ := os.Create(filepath.Join(work, os.Getenv("VERIF_PART"), fmt.Sprintf("shard-%d.log", i)))
 			cmd.Stdout, cmd.Stderr = logf, logf
 			err := cmd.Run()
@@ -448,6 +457,13 @@ func parent(h *Harness, tier string, seed int64) int {
 					m.Failures[k] = f
 				}
 			}
+		}
+	}
+	if h.PostProcess != nil {
+		n0 := len(m.Failures)
+		h.PostProcess(m, filepath.Join(work, os.Getenv("VERIF_PART")))
+		for k := n0; k < len(m.Failures); k++ {
+			m.Failures[k].Stable = true
 		}
 	}
 	sort.Slice(m.Failures, func(a, b int) bool { return m.Failures[a].Sig < m.Failures[b].Sig })
